@@ -119,7 +119,11 @@ def run(ctx: Ctx) -> None:
     lvar = lh.loop.target.id if isinstance(lh.loop.target, ast.Name) else None
     gets = [n for n in scfg.nodes if n.kind == "stmt" and isinstance(n.stmt, ast.Assign) and isinstance(n.stmt.value, ast.Call) and isinstance(n.stmt.value.func, ast.Attribute) and n.stmt.value.func.attr == "get"
             and norm(n.stmt.value.func.value).endswith(".namespaces")]
-    if not gets and any(isinstance(x, ast.Attribute) and x.attr == "namespaces" for x in ast.walk(fn)):
+    other_idiom = any((isinstance(x, ast.Subscript) and isinstance(x.ctx, ast.Load) and norm(x.value).endswith(".namespaces")) or
+                      (isinstance(x, ast.Call) and isinstance(x.func, ast.Attribute) and x.func.attr in ("setdefault", "__getitem__") and norm(x.func.value).endswith(".namespaces")) or
+                      (isinstance(x, ast.Compare) and any(isinstance(o, (ast.In, ast.NotIn)) for o in x.ops) and any(norm(c_).endswith(".namespaces") for c_ in x.comparators))
+                      for x in ast.walk(fn))
+    if not gets and other_idiom:
         # another lookup idiom (subscript + KeyError, setdefault, ...): not decided here rather than guessed at
         raise AnalysisError("on_namespace_start looks child scopes up in a way this rule does not model (expected `<parent>.namespaces.get(name)`)")
     ok = len(gets) == 1 and lvar is not None
